@@ -1,5 +1,5 @@
 NAME = 'N-trunc'
-PROPERTIES = ['C24']
+PROPERTIES = ['C24', 'C18']
 ENGINE = 'kani'
 CLASS = 'B'
 CRATE = 'vibesql-storage'
@@ -8,12 +8,14 @@ UNWIND = 6
 HARNESS_FILE = 'kani/storage/text.rs'
 DOC = ('truncate_to_char_boundary (table/normalization.rs), the helper behind VARCHAR(n) / NAME / CHAR(n) truncation: never panics and returns the longest '
        'prefix that is at most max bytes long and ends on a character boundary - every valid UTF-8 string of up to 4 bytes (BOUNDED: 4 bytes, '
-       'covering every character width) and every usize max.')
+       'covering every character width) and every usize max. normalize_char_value - the stored form of a CHAR(n) value - is exactly n bytes (that prefix, then spaces) and a stored value is a fixed point of it (BOUNDED: strings of up to 3 bytes, n <= 4).')
 FUNCTIONS = [
     dict(file='crates/vibesql-storage/src/table/normalization.rs', path='fn truncate_to_char_boundary'),
+    dict(file='crates/vibesql-storage/src/table/normalization.rs', path="impl<'a> RowNormalizer<'a>::fn normalize_char_value"),
 ]
 HARNESSES = {
     'n_trunc_longest_fitting_prefix_on_a_char_boundary': dict(fn='truncate_to_char_boundary', clause='no_panic__longest_prefix_within_max_on_a_char_boundary', cls='B(4 bytes)'),
+    'n_char_exactly_n_bytes_and_a_fixed_point': dict(fn='normalize_char_value', clause='exactly_n_bytes__longest_fitting_prefix_then_spaces__stored_value_is_a_fixed_point', cls='B(3 bytes, n <= 4)'),
     'n_trunc_canary_must_fail': dict(fn='canary', clause='must_fail', canary=True),
 }
 TRUSTED = ['core::str::from_utf8 / str::is_char_boundary (std)', 'strings longer than 4 bytes are not explored (bounded stand-in; the loop of the helper walks back at most 3 bytes for any valid UTF-8)',
